@@ -2,7 +2,8 @@ import PsyVerif.Lemmas.RegionDataSem
 /-! # C12 — Extraction regions record every input and output they need
 
 Model: `RegionData.inputs/outputs/inOut` (= `CallTreeUtils.get_in_out_parameters` on the
-ordered access list `RegionData.sacc` = `VariablesAccessInfo`).  Semantics: `MiniF.exec`.
+ordered access list `RegionData.sacc` = `VariablesAccessInfo`).  Semantics: `RegionData.rexec`
+(= `MiniF.exec` plus `DO WHILE`; every theorem holds for every iteration bound `fuel`).
 
 * `C12_outputs` — unconditional: every variable the region can modify is an output.
 * `C12_statement` (the replay claim at full strength) is FALSE of the pinned code:
@@ -15,16 +16,18 @@ ordered access list `RegionData.sacc` = `VariablesAccessInfo`).  Semantics: `Min
 namespace C12
 open MiniF RegionData
 
+variable {fuel : Nat}
+
 /-- two stores agree on the cells of the variables in `V` (all elements of a variable the
 region accesses as an array; the single cell of a scalar) -/
-def AgreeV (s : Stmt) (V : List Nat) (σ τ : Store) : Prop :=
+def AgreeV (s : RStmt) (V : List Nat) (σ τ : Store) : Prop :=
   ∀ x ∈ V, ∀ i j, (isArr (sacc s) x = true ∨ (i = 0 ∧ j = 0)) → σ (x, i, j) = τ (x, i, j)
 
 /-- the cells of the recorded inputs -/
-def baseA (s : Stmt) : Loc → Prop :=
+def baseA (s : RStmt) : Loc → Prop :=
   fun l => l.1 ∈ inputs s ∧ (isArr (sacc s) l.1 = true ∨ (l.2.1 = 0 ∧ l.2.2 = 0))
 
-theorem kok_base (s : Stmt) : KOK (baseA s) (inputs s) (sacc s) := by
+theorem kok_base (s : RStmt) : KOK (baseA s) (inputs s) (sacc s) := by
   intro e he _ hk l hc
   refine ⟨hc.1 ▸ hk, ?_⟩
   rcases hc.2 with h | h
@@ -32,8 +35,8 @@ theorem kok_base (s : Stmt) : KOK (baseA s) (inputs s) (sacc s) := by
   · right; exact h
 
 /-- from agreement on the recorded inputs to the simulation invariant after the region -/
-theorem sim_final {s : Stmt} {D : List Nat} {σ τ : Store} (hc : chk (inputs s) s [] = some D)
-    (h : AgreeV s (inputs s) σ τ) : Sim (Adef (baseA s) D) σ τ (exec s σ) (exec s τ) := by
+theorem sim_final {s : RStmt} {D : List Nat} {σ τ : Store} (hc : chk (inputs s) s [] = some D)
+    (h : AgreeV s (inputs s) σ τ) : Sim (Adef (baseA s) D) σ τ (rexec fuel s σ) (rexec fuel s τ) := by
   have h0 : Sim (Adef (baseA s) []) σ τ σ τ := by
     constructor
     · intro l hl
@@ -44,7 +47,7 @@ theorem sim_final {s : Stmt} {D : List Nat} {σ τ : Store} (hc : chk (inputs s)
     · intro l; exact Or.inr ⟨rfl, rfl⟩
   exact (chk_sim s [] D σ τ hc (kok_base s) h0).1
 
-theorem outDefined_chk {s : Stmt} (h : OutputsDefined s) : WholeFirstWrites s := by
+theorem outDefined_chk {s : RStmt} (h : OutputsDefined s) : WholeFirstWrites s := by
   unfold OutputsDefined outDefined at h
   unfold WholeFirstWrites
   split at h
@@ -56,56 +59,57 @@ theorem outDefined_chk {s : Stmt} (h : OutputsDefined s) : WholeFirstWrites s :=
 /-- the full claim: replaying the region from a store that agrees with the original one on
 the recorded inputs reproduces the recorded outputs -/
 def C12_statement : Prop :=
-  ∀ (s : Stmt) (σ τ : Store), AgreeV s (inputs s) σ τ → AgreeV s (outputs s) (exec s σ) (exec s τ)
+  ∀ (fuel : Nat) (s : RStmt) (σ τ : Store), AgreeV s (inputs s) σ τ →
+    AgreeV s (outputs s) (rexec fuel s σ) (rexec fuel s τ)
 
 /-- the input half alone: every value the region stores is determined by the recorded inputs
 (each location ends with the same value in both runs, or is left untouched by both) -/
 def C12_inputs_statement : Prop :=
-  ∀ (s : Stmt) (σ τ : Store), AgreeV s (inputs s) σ τ →
-    ∀ l, (exec s σ) l = (exec s τ) l ∨ ((exec s σ) l = σ l ∧ (exec s τ) l = τ l)
+  ∀ (fuel : Nat) (s : RStmt) (σ τ : Store), AgreeV s (inputs s) σ τ →
+    ∀ l, (rexec fuel s σ) l = (rexec fuel s τ) l ∨ ((rexec fuel s σ) l = σ l ∧ (rexec fuel s τ) l = τ l)
 
 /-- **outputs are complete** (all regions, all stores): a variable any element of which the
 region changes is in the output list -/
-theorem C12_outputs (s : Stmt) (σ : Store) (x : Nat) (i j : Int)
-    (h : (exec s σ) (x, i, j) ≠ σ (x, i, j)) : x ∈ outputs s := by
+theorem C12_outputs (s : RStmt) (σ : Store) (x : Nat) (i j : Int)
+    (h : (rexec fuel s σ) (x, i, j) ≠ σ (x, i, j)) : x ∈ outputs s := by
   apply Classical.byContradiction
   intro hx
   apply h
-  apply exec_frame
+  apply rexec_frame
   intro hw
   exact hx (mem_outputsE.mpr (wvars_written hw))
 
 /-- the same for a region given as a list of consecutive statements -/
-theorem C12_outputs_region (region : List Stmt) (σ : Store) (x : Nat) (i j : Int)
-    (h : (exec (seqs region) σ) (x, i, j) ≠ σ (x, i, j)) : x ∈ (inOut region).2 :=
-  C12_outputs (seqs region) σ x i j h
+theorem C12_outputs_region (region : List RStmt) (σ : Store) (x : Nat) (i j : Int)
+    (h : (rexec fuel (rseqs region) σ) (x, i, j) ≠ σ (x, i, j)) : x ∈ (inOut region).2 :=
+  C12_outputs (rseqs region) σ x i j h
 
 /-- an output is exactly a variable with a WRITE access; an input exactly a variable whose
 first access is not a WRITE -/
-theorem C12_outputs_char (s : Stmt) (x : Nat) : x ∈ outputs s ↔ isWritten (sacc s) x = true :=
+theorem C12_outputs_char (s : RStmt) (x : Nat) : x ∈ outputs s ↔ isWritten (sacc s) x = true :=
   mem_outputsE
 
-theorem C12_inputs_char (s : Stmt) (x : Nat) :
+theorem C12_inputs_char (s : RStmt) (x : Nat) :
     x ∈ inputs s ↔ (∃ e ∈ sacc s, e.var = x) ∧ writtenFirst (sacc s) x = false := by
   simp [inputs, inputsE, List.mem_filter, mem_varsOf]
 
 /-- **inputs are complete, partial**: if every first-written variable that is read is a scalar
 defined unconditionally before those reads, the values the region stores do not depend on
 anything but the recorded inputs -/
-theorem C12_inputs_partial (s : Stmt) (hw : WholeFirstWrites s) (σ τ : Store)
+theorem C12_inputs_partial (s : RStmt) (hw : WholeFirstWrites s) (σ τ : Store)
     (h : AgreeV s (inputs s) σ τ) :
-    ∀ l, (exec s σ) l = (exec s τ) l ∨ ((exec s σ) l = σ l ∧ (exec s τ) l = τ l) := by
+    ∀ l, (rexec fuel s σ) l = (rexec fuel s τ) l ∨ ((rexec fuel s σ) l = σ l ∧ (rexec fuel s τ) l = τ l) := by
   obtain ⟨D, hD⟩ := Option.isSome_iff_exists.mp hw
   exact (sim_final hD h).rel
 
 /-- **replay, partial**: if moreover every output is an input or such an unconditionally
 defined scalar, replaying from the recorded inputs reproduces the recorded outputs -/
-theorem C12_replay_partial (s : Stmt) (ho : OutputsDefined s) (σ τ : Store)
-    (h : AgreeV s (inputs s) σ τ) : AgreeV s (outputs s) (exec s σ) (exec s τ) := by
+theorem C12_replay_partial (s : RStmt) (ho : OutputsDefined s) (σ τ : Store)
+    (h : AgreeV s (inputs s) σ τ) : AgreeV s (outputs s) (rexec fuel s σ) (rexec fuel s τ) := by
   unfold OutputsDefined outDefined at ho
   split at ho
   · rename_i D hD
-    have hs := sim_final hD h
+    have hs := sim_final (fuel := fuel) hD h
     intro x hx i j hcell
     simp only [List.all_eq_true, Bool.or_eq_true, List.contains_iff_mem, Bool.and_eq_true,
       Bool.not_eq_true'] at ho
@@ -119,15 +123,15 @@ theorem C12_replay_partial (s : Stmt) (ho : OutputsDefined s) (σ τ : Store)
   · exact absurd ho (by simp)
 
 /-- region form of the replay theorem, in terms of `inOut` -/
-theorem C12_replay_region_partial (region : List Stmt) (ho : OutputsDefined (seqs region))
-    (σ τ : Store) (h : AgreeV (seqs region) (inOut region).1 σ τ) :
-    AgreeV (seqs region) (inOut region).2 (exec (seqs region) σ) (exec (seqs region) τ) :=
-  C12_replay_partial (seqs region) ho σ τ h
+theorem C12_replay_region_partial (region : List RStmt) (ho : OutputsDefined (rseqs region))
+    (σ τ : Store) (h : AgreeV (rseqs region) (inOut region).1 σ τ) :
+    AgreeV (rseqs region) (inOut region).2 (rexec fuel (rseqs region) σ) (rexec fuel (rseqs region) τ) :=
+  C12_replay_partial (rseqs region) ho σ τ h
 
 /-! ## The defect: `is_written_first` is "first textual access is a write" -/
 
 /-- `a(1) = 5 ; b(2) = a(2)` with `a = 0`, `b = 1` -/
-def wit : Stmt := .seq (.store1 0 (.lit 1) (.lit 5)) (.store1 1 (.lit 2) (.idx1 0 (.lit 2)))
+def wit : RStmt := .seq (.store1 0 (.lit 1) (.lit 5)) (.store1 1 (.lit 2) (.idx1 0 (.lit 2)))
 def σw : Store := storeOf []
 def τw : Store := storeOf [((0, 2, 0), 1)]
 
@@ -141,41 +145,41 @@ theorem wit_inputs : inputs wit = [] := by decide
 incoming `a(2)` -/
 theorem partial_write_counterexample : ¬ C12_statement := by
   intro h
-  have h1 := h wit σw τw (by intro x hx; rw [wit_inputs] at hx; cases hx) 1 (by decide) 2 0
+  have h1 := h 0 wit σw τw (by intro x hx; rw [wit_inputs] at hx; cases hx) 1 (by decide) 2 0
     (Or.inl (by decide))
   revert h1
   decide
 
 theorem partial_write_inputs_counterexample : ¬ C12_inputs_statement := by
   intro h
-  have h1 := h wit σw τw (by intro x hx; rw [wit_inputs] at hx; cases hx) (1, 2, 0)
+  have h1 := h 0 wit σw τw (by intro x hx; rw [wit_inputs] at hx; cases hx) (1, 2, 0)
   revert h1
   decide
 
 /-- `a(1) = 5` alone: nothing upward-exposed is missed (`WholeFirstWrites` holds), but the
 recorded output `a` is not reproduced by a replay that knows no input -/
-def wit2 : Stmt := .store1 0 (.lit 1) (.lit 5)
+def wit2 : RStmt := .store1 0 (.lit 1) (.lit 5)
 
 example : WholeFirstWrites wit2 ∧ ¬ OutputsDefined wit2 := by decide
 
 theorem write_only_replay_counterexample :
-    ¬ (∀ σ τ, AgreeV wit2 (inputs wit2) σ τ → AgreeV wit2 (outputs wit2) (exec wit2 σ) (exec wit2 τ)) := by
+    ¬ (∀ fuel σ τ, AgreeV wit2 (inputs wit2) σ τ → AgreeV wit2 (outputs wit2) (rexec fuel wit2 σ) (rexec fuel wit2 τ)) := by
   intro h
-  have h1 := h σw τw (by intro x hx; have : inputs wit2 = [] := by decide
-                         rw [this] at hx; cases hx) 0 (by decide) 2 0 (Or.inl (by decide))
+  have hin : inputs wit2 = [] := by decide
+  have h1 := h 0 σw τw (by intro x hx; rw [hin] at hx; cases hx) 0 (by decide) 2 0 (Or.inl (by decide))
   revert h1
   decide
 
 /-- `do i = i, 2 ; s = s + 1 ; enddo` (i=0, s=1): the loop's WRITE of `i` precedes the READ of
 `i` in its own bound in the access list, so `i` is no input, but it fixes the trip count -/
-def wit3 : Stmt := .loop 0 (.var 0) (.lit 2) (.lit 1) (.assign 1 (.bin .add (.var 1) (.lit 1)))
+def wit3 : RStmt := .loop 0 (.var 0) (.lit 2) (.lit 1) (.assign 1 (.bin .add (.var 1) (.lit 1)))
 
 theorem wit3_inputs : inputs wit3 = [1] := by decide
 
 theorem own_bounds_counterexample :
-    ¬ (∀ σ τ, AgreeV wit3 (inputs wit3) σ τ → AgreeV wit3 (outputs wit3) (exec wit3 σ) (exec wit3 τ)) := by
+    ¬ (∀ fuel σ τ, AgreeV wit3 (inputs wit3) σ τ → AgreeV wit3 (outputs wit3) (rexec fuel wit3 σ) (rexec fuel wit3 τ)) := by
   intro h
-  have h1 := h (storeOf [((0, 0, 0), 1)]) (storeOf [((0, 0, 0), 5)])
+  have h1 := h 0 (storeOf [((0, 0, 0), 1)]) (storeOf [((0, 0, 0), 5)])
     (by
       intro x hx i j _
       rw [wit3_inputs] at hx
@@ -189,7 +193,7 @@ theorem own_bounds_counterexample :
 /-! ## Non-vacuity and sanity evaluations -/
 
 /-- `t = a(3); do i = 1, n: b(i) = a(i) + t; enddo; s = s + 1`  (a=0 b=1 t=2 i=3 n=4 s=5) -/
-def good : Stmt :=
+def good : RStmt :=
   .seq (.assign 2 (.idx1 0 (.lit 3)))
     (.seq (.loop 3 (.lit 1) (.var 4) (.lit 1)
             (.store1 1 (.var 3) (.bin .add (.idx1 0 (.var 3)) (.var 2))))
@@ -202,7 +206,7 @@ example : WholeFirstWrites good := by decide
 example : ¬ OutputsDefined good := by decide
 
 /-- the same with `b(i) = b(i) + a(i) + t` (b is then an input): both side conditions hold -/
-def good2 : Stmt :=
+def good2 : RStmt :=
   .seq (.assign 2 (.idx1 0 (.lit 3)))
     (.seq (.loop 3 (.lit 1) (.var 4) (.lit 1)
             (.store1 1 (.var 3) (.bin .add (.idx1 1 (.var 3)) (.bin .add (.idx1 0 (.var 3)) (.var 2)))))
@@ -220,29 +224,87 @@ in the access list, so `i` is no input; rejected -/
 example : inputs (.loop 0 (.var 0) (.lit 5) (.lit 1) .skip) = [] := by decide
 example : ¬ WholeFirstWrites (.loop 0 (.var 0) (.lit 5) (.lit 1) .skip) := by decide
 
+/-! ## DO WHILE, CodeBlocks, agreement with MiniF -/
+
+/-- on while-free statements the semantics is `MiniF.exec`, so the theorems above are about
+MiniF programs -/
+theorem C12_outputs_minif (s : Stmt) (σ : Store) (x : Nat) (i j : Int)
+    (h : (exec s σ) (x, i, j) ≠ σ (x, i, j)) : x ∈ outputs (ofStmt s) := by
+  rw [← rexec_ofStmt 0 s] at h
+  exact C12_outputs (ofStmt s) σ x i j h
+
+/-- `do while (a(1) > 0 .and. w > 0): a(1) = 0; b(w) = a(1) + 1; w = w - 1` (a=0 b=1 w=2):
+the condition is recorded before the body, so `a` and `w` are inputs -/
+def wloop : RStmt :=
+  .whileDo (.bin .and (.bin .gt (.idx1 0 (.lit 1)) (.lit 0)) (.bin .gt (.var 2) (.lit 0)))
+    (.seq (.store1 0 (.lit 1) (.lit 0))
+      (.seq (.store1 1 (.var 2) (.bin .add (.idx1 0 (.lit 1)) (.lit 1)))
+            (.assign 2 (.bin .sub (.var 2) (.lit 1)))))
+
+example : (inputs wloop).contains 0 ∧ (inputs wloop).contains 2 ∧ ¬ (inputs wloop).contains 1 := by decide
+example : WholeFirstWrites wloop ∧ ¬ OutputsDefined wloop := by decide
+/-- a scalar assigned in the body is NOT defined after the loop (zero iterations possible) -/
+example : ¬ WholeFirstWrites (.seq (.whileDo (.var 0) (.seq (.assign 1 (.lit 1)) (.assign 0 (.lit 0))))
+    (.assign 2 (.var 1))) := by decide
+/-- the loop really iterates under `decide` (fuel 5): `w = 2` gives `b(2) = 1`, `w = 0` -/
+example : (rexec 5 wloop (storeOf [((0, 1, 0), 3), ((2, 0, 0), 2)])) (1, 2, 0) = 1
+    ∧ (rexec 5 wloop (storeOf [((0, 1, 0), 3), ((2, 0, 0), 2)])) (2, 0, 0) = 1 := by decide
+
+/-- `ExtractTrans` refuses exactly the regions that contain an excluded node (CodeBlock,
+Return), and otherwise records `get_in_out_parameters` of the region -/
+theorem C12_extract_refuses (items : List Item) :
+    extractTrans items = none ↔ hasExcluded items = true := by
+  unfold extractTrans
+  split <;> simp_all
+
+theorem C12_extract_lists (items : List Item) (l : List Nat × List Nat)
+    (h : extractTrans items = some l) : hasExcluded items = false ∧ l = inOut (itemsStmt items) := by
+  unfold extractTrans at h
+  split at h
+  · exact absurd h (by simp)
+  · rename_i hx
+    simp only [Option.some.injEq] at h
+    exact ⟨by simpa using hx, h.symm⟩
+
+/-- hence for every ACCEPTED extraction region the theorems above apply to the recorded lists -/
+theorem C12_extract_outputs (items : List Item) (l : List Nat × List Nat)
+    (h : extractTrans items = some l) (σ : Store) (x : Nat) (i j : Int)
+    (hx : (rexec fuel (rseqs (itemsStmt items)) σ) (x, i, j) ≠ σ (x, i, j)) : x ∈ l.2 := by
+  rw [(C12_extract_lists items l h).2]
+  exact C12_outputs_region (itemsStmt items) σ x i j hx
+
+example : extractTrans [.stmt wloop, .excluded] = none := by decide
+/-- a CodeBlock contributes no access to plain `get_in_out_parameters`: for
+`s1 = sum((/ (s0*ii, ii=1,3) /))` (exported as `s1 = <opaque>`) and a FORALL CodeBlock the lists
+are inputs [] / outputs [s1] — whatever the CodeBlocks read or write is invisible; only the
+refusal by `ExtractTrans` protects extraction regions -/
+theorem codeblock_invisible_example :
+    inOutItems [.stmt (.assign 1 (.lit 0)), .excluded] = ([], [1])
+    ∧ extractTrans [.stmt (.assign 1 (.lit 0)), .excluded] = none := by decide
+
 /-! ## Regions of calls: non-local (module) variables reached through kernels / routines
 
 `inputsCalls` / `outputsCalls` merge the callees' own access summaries (the pinned
 `_resolve_calls_and_unknowns`).  The semantic reference is the region with the callee bodies
-inlined, `seqs bodies`: the merged outputs are complete, and the merged inputs contain every
+inlined, `rseqs bodies`: the merged outputs are complete, and the merged inputs contain every
 input of the inlined region (they over-approximate: a variable first written by an earlier
 callee and read by a later one is still listed). -/
 
-theorem sacc_seqs_cons (b : Stmt) (r : List Stmt) : sacc (seqs (b :: r)) = sacc b ++ sacc (seqs r) := by
+theorem sacc_seqs_cons (b : RStmt) (r : List RStmt) : sacc (rseqs (b :: r)) = sacc b ++ sacc (rseqs r) := by
   cases r with
-  | nil => simp [seqs, sacc]
-  | cons c r => simp [seqs, sacc]
+  | nil => simp [rseqs, sacc]
+  | cons c r => simp [rseqs, sacc]
 
-theorem mem_unionMap {f : Stmt → List Nat} {bodies : List Stmt} {x : Nat} :
+theorem mem_unionMap {f : RStmt → List Nat} {bodies : List RStmt} {x : Nat} :
     x ∈ unionMap f bodies ↔ ∃ b ∈ bodies, x ∈ f b := by
   induction bodies with
   | nil => simp [unionMap]
   | cons b r ih => simp [unionMap, ih]
 
-theorem written_seqs {bodies : List Stmt} {x : Nat} (h : isWritten (sacc (seqs bodies)) x = true) :
+theorem written_seqs {bodies : List RStmt} {x : Nat} (h : isWritten (sacc (rseqs bodies)) x = true) :
     ∃ b ∈ bodies, isWritten (sacc b) x = true := by
   induction bodies with
-  | nil => simp [seqs, sacc, isWritten] at h
+  | nil => simp [rseqs, sacc, isWritten] at h
   | cons b r ih =>
     rw [sacc_seqs_cons, isWritten, List.any_append, Bool.or_eq_true] at h
     rcases h with h | h
@@ -252,17 +314,17 @@ theorem written_seqs {bodies : List Stmt} {x : Nat} (h : isWritten (sacc (seqs b
 
 /-- **outputs are complete for regions of calls**: a non-local variable that the inlined
 region changes is written by some callee, hence in the merged output list -/
-theorem C12_outputs_calls (G : List Nat) (bodies : List Stmt) (σ : Store) (x : Nat) (i j : Int)
-    (hG : x ∈ G) (h : (exec (seqs bodies) σ) (x, i, j) ≠ σ (x, i, j)) : x ∈ outputsCalls G bodies := by
-  have h1 := (C12_outputs_char _ _).mp (C12_outputs (seqs bodies) σ x i j h)
+theorem C12_outputs_calls (G : List Nat) (bodies : List RStmt) (σ : Store) (x : Nat) (i j : Int)
+    (hG : x ∈ G) (h : (rexec fuel (rseqs bodies) σ) (x, i, j) ≠ σ (x, i, j)) : x ∈ outputsCalls G bodies := by
+  have h1 := (C12_outputs_char _ _).mp (C12_outputs (rseqs bodies) σ x i j h)
   obtain ⟨b, hb, hw⟩ := written_seqs h1
   simp only [outputsCalls, List.mem_filter, mem_dedup, mem_unionMap, List.contains_iff_mem]
   exact ⟨⟨b, hb, (C12_outputs_char _ _).mpr hw⟩, hG⟩
 
-theorem inputs_seqs {bodies : List Stmt} {x : Nat} (h : x ∈ inputs (seqs bodies)) :
+theorem inputs_seqs {bodies : List RStmt} {x : Nat} (h : x ∈ inputs (rseqs bodies)) :
     ∃ b ∈ bodies, x ∈ inputs b := by
   induction bodies with
-  | nil => simp [seqs, inputs, inputsE, sacc, varsOf, dedup] at h
+  | nil => simp [rseqs, inputs, inputsE, sacc, varsOf, dedup] at h
   | cons b r ih =>
     rw [C12_inputs_char, sacc_seqs_cons] at h
     obtain ⟨⟨e, he, hv⟩, hf⟩ := h
@@ -282,7 +344,7 @@ theorem inputs_seqs {bodies : List Stmt} {x : Nat} (h : x ∈ inputs (seqs bodie
         intro hmem
         have := List.find?_eq_none.mp hb e hmem
         simp [hv] at this
-      have her : e ∈ sacc (seqs r) := by
+      have her : e ∈ sacc (rseqs r) := by
         rcases List.mem_append.mp he with h1 | h1
         · exact absurd h1 hnb
         · exact h1
@@ -290,24 +352,24 @@ theorem inputs_seqs {bodies : List Stmt} {x : Nat} (h : x ∈ inputs (seqs bodie
       exact ⟨c, List.mem_cons_of_mem _ hc, hin⟩
 
 /-- **inputs are complete for regions of calls** relative to the inlined region: every
-non-local input of `seqs bodies` is in the merged input list.  Together with
-`C12_inputs_partial` / `C12_replay_partial` for `seqs bodies` (agreement on a superset of the
+non-local input of `rseqs bodies` is in the merged input list.  Together with
+`C12_inputs_partial` / `C12_replay_partial` for `rseqs bodies` (agreement on a superset of the
 inputs implies agreement on the inputs) the partial theorems carry over. -/
-theorem C12_inputs_calls_super (G : List Nat) (bodies : List Stmt) (x : Nat) (hG : x ∈ G)
-    (h : x ∈ inputs (seqs bodies)) : x ∈ inputsCalls G bodies := by
+theorem C12_inputs_calls_super (G : List Nat) (bodies : List RStmt) (x : Nat) (hG : x ∈ G)
+    (h : x ∈ inputs (rseqs bodies)) : x ∈ inputsCalls G bodies := by
   obtain ⟨b, hb, hin⟩ := inputs_seqs h
   simp only [inputsCalls, List.mem_filter, mem_dedup, mem_unionMap, List.contains_iff_mem]
   exact ⟨⟨b, hb, hin⟩, hG⟩
 
 /-- reader kernel then writer kernel on the module variable 0 (`F(1) = F(1) + g` ; `g = 2`):
 the merged lists contain `g` as input and output in both call orders -/
-def readerK : Stmt := .store1 1 (.lit 1) (.bin .add (.idx1 1 (.lit 1)) (.var 0))
-def writerK : Stmt := .seq (.assign 0 (.lit 2)) readerK
+def readerK : RStmt := .store1 1 (.lit 1) (.bin .add (.idx1 1 (.lit 1)) (.var 0))
+def writerK : RStmt := .seq (.assign 0 (.lit 2)) readerK
 
 example : inputsCalls [0] [readerK, writerK] = [0] ∧ outputsCalls [0] [readerK, writerK] = [0] := by decide
 example : inputsCalls [0] [writerK, readerK] = [0] ∧ outputsCalls [0] [writerK, readerK] = [0] := by decide
 /-- the inlined reference needs `g` as input only when the reader runs first -/
-example : (inputs (seqs [readerK, writerK])).contains 0 ∧ ¬ (inputs (seqs [writerK, readerK])).contains 0 := by
+example : (inputs (rseqs [readerK, writerK])).contains 0 ∧ ¬ (inputs (rseqs [writerK, readerK])).contains 0 := by
   decide
 
 end C12
